@@ -47,10 +47,11 @@ def fire(cell):
     U = pb.Unit
     ang, mv, alt, cfg, rng_yd, extra, tstep = cell[:7]
     wind = cell[7] if len(cell) > 7 else None
+    look = cell[8] if len(cell) > 8 else 0.0
     dm = pb.DragModel(0.223, pb.TableG7, U.Grain(168), U.Inch(0.308), U.Inch(1.282))
 
     def shot():
-        return pb.Shot(pb.Weapon(U.Inch(2), U.Inch(12)), pb.Ammo(dm, U.FPS(mv)), relative_angle=U.Degree(ang),
+        return pb.Shot(pb.Weapon(U.Inch(2), U.Inch(12)), pb.Ammo(dm, U.FPS(mv)), relative_angle=U.Degree(ang), look_angle=U.Degree(look),
                        atmo=pb.Atmo.icao(U.Foot(alt)), winds=[pb.Wind(U.MPH(wind[0]), U.Degree(wind[1]))] if wind else None)
 
     full = dict(DEFAULTS)
@@ -145,4 +146,11 @@ def plan(tier):
                 for cfg in ({}, {'cMinimumVelocity': 100.0}, {'cMinimumVelocity': 0.0, 'cMaximumDrop': -100.0}):
                     for extra in (False, True):
                         cells.append([ang, mv, 0.0, cfg, 3000, extra, 0.5, wind])
+    # inclined sight lines: the limits are about speed, height relative to the muzzle and altitude - not about the sight line
+    for look in (30.0, -30.0):
+        for ang in (0.0, 45.0, -45.0):
+            for mv in (2750.0, 60.0):
+                for cfg in ({}, {'cMaximumDrop': -10.0}, {'cMinimumAltitude': -5.0}, {'cMinimumVelocity': 500.0, 'cMaximumDrop': -10.0}):
+                    for extra in (False, True):
+                        cells.append([ang, mv, 0.0, cfg, 3000, extra, 0.5 if mv < 100 else 0.0, None, look])
     return [('fire', cells)]
